@@ -225,13 +225,13 @@ UpdSend ==
     /\ UNCHANGED <<inq, nissue, nature, status, pc, rres, file, i, success, sema, ncalls, pendcb, link, ndrop, ndup, nearly>>
 
 Retry ==
-    /\ Resend /\ link = "up" /\ inflight # NoReq /\ chan = <<>>
+    /\ Resend /\ link = "up" /\ inflight # NoReq /\ chan = <<>> /\ inq = <<>>
     /\ Transmit(inflight)
     /\ UNCHANGED <<inq, lasttx, nissue, nature, status, pc, rres, file, i, success, sema, ncalls, queue, inflight, pendcb, link,
                    ndrop, ndup, nearly>>
 
 EarlyRetry ==
-    /\ Resend /\ link = "up" /\ inflight # NoReq /\ chan # <<>> /\ nearly < MaxEarly
+    /\ Resend /\ link = "up" /\ inflight # NoReq /\ (chan # <<>> \/ inq # <<>>) /\ nearly < MaxEarly
     /\ nearly' = nearly + 1
     /\ Transmit(inflight)
     /\ UNCHANGED <<inq, lasttx, nissue, nature, status, pc, rres, file, i, success, sema, ncalls, queue, inflight, pendcb, link,
